@@ -121,7 +121,11 @@ ShippedUsageFine ==
     (Len(cfg) = 1 /\ ~cfg[1].cls.stock /\ ~Coll) => v = "OK" \/ v = "computed-twice"
 
 \* the rebuilt class binds every handler name to the body the original class binds it to
-HandlersPreserved == CollectionFaithful(CollectMode, TestCls)
+\* (also for a class that overrides __call__ - whose alias `rec` stays with the base - which
+\* exists on the model only)
+ModelOnlyClasses == { [name |-> "ModelOnlyOvCall", m |-> "ident", args |-> FALSE, stock |-> FALSE,
+                       base |-> "identity", ov |-> << "__call__", "map_bitwise_not" >>] }
+HandlersPreserved == \A c \in {TestCls} \cup ModelOnlyClasses : CollectionFaithful(CollectMode, c)
 
 OptBits(o) == << o.da, o.dk, o.ir, o.ic, o.ik >>
 Emit == Len(hist) >= 1 => PrintT(ToJson([opt |-> cfg, h |-> hist]))
